@@ -99,9 +99,41 @@ def worker(job):
         res = R.verify_contract(v, cls, prop=prop, quick_ms=quick_ms, cli_timeout_s=cli_s,
                                 all_solvers=(tier == "thorough"), seed=seed,
                                 workdir=os.path.join(HERE, ".work"), cheap_keys=cheap)
+        # A failing obligation that lies BEHIND a loop cut may be an artefact of the cut (the loop's invariant says too
+        # little about the variables the obligation talks about - typical after a harmless restructuring of the loop).
+        # Re-check: the same function with its loops executed exactly, up to 3 iterations, nothing havocked.  If that run
+        # completes and every instance of the obligation is discharged on the unrolled paths, the failure is not
+        # reproducible without the cut: it is reported as undecided, not as a violation.
+        artefacts = {}
+        suspects = {ob.oid.rsplit("#", 1)[0] for ob in res["obligations"]
+                    if ob.result.verdict == "sat" and ob.kind in ("post", "assert", "xpost", "pre")
+                    and any("arbitrary iteration" in t for t in ob.trace) and ob.oid.rsplit("#", 1)[0] not in cheap}
+        if suspects and res["status"] == "ok":
+            try:
+                v2 = VF.Verifier(MIDDLEWARE)
+                v2.bounded = 3
+                res2 = R.verify_contract(v2, cls, prop=prop, quick_ms=quick_ms, cli_timeout_s=cli_s, seed=seed,
+                                         workdir=os.path.join(HERE, ".work"), cheap_keys=cheap)
+                if res2["status"] == "ok":
+                    seen = {}
+                    for ob2 in res2["obligations"]:
+                        seen.setdefault(ob2.oid.rsplit("#", 1)[0], []).append(ob2.result.verdict)
+                    for k2 in suspects:
+                        vs = seen.get(k2)
+                        if vs and all(x == "unsat" for x in vs):
+                            artefacts[k2] = len(vs)
+            except Exception:       # noqa: the re-check is an extra; when it cannot run the first verdict stands
+                pass
         obs = []
         for ob in res["obligations"]:
             r = ob.result
+            if r.verdict == "sat" and ob.oid.rsplit("#", 1)[0] in artefacts and any("arbitrary iteration" in t for t in ob.trace):
+                r = solve.Result("unknown", "bounded-recheck", r.time, None,
+                                 detail="fails only behind a loop cut: with the loops of this function executed exactly (up to 3 iterations, "
+                                        "%d instances of this obligation) it is discharged - the loop invariant of the contract says too "
+                                        "little for this code; not reported as a violation" % artefacts[ob.oid.rsplit("#", 1)[0]])
+                ob.result = r
+                ob.meta = dict(ob.meta or {}, artefact_of_loop_cut=True)
             d = dict(id=ob.oid, key=ob.oid.rsplit("#", 1)[0], func=ob.func, kind=ob.kind, label=ob.label,
                      verdict=r.verdict, solver=r.solver, time=round(r.time, 3), solvers=r.all,
                      serves=list(ob.serves), trace=ob.trace[-12:], meta=ob.meta)
@@ -277,6 +309,8 @@ def main():
             continue
         if o.get("solver") == "budget":
             continue        # not attempted (its function already has open obligations that are reported)
+        if (o.get("meta") or {}).get("artefact_of_loop_cut"):
+            continue        # stays undecided (exit 2): see the bounded re-check in worker()
         if o["key"] in baseline.get(a.prop, []):
             o["nofail"] = True
             violations.append(o)
